@@ -9,10 +9,13 @@ Domain : 2-6 flows, each `match Ev(<subset of the event's 3 parameters>)` (speci
 Oracle : per loop, winners = flows whose action equals the action of ONE top-scoring flow (score = 0.9^unmentioned
          x priority; exact ties -> any of them, validity predicate); each winning action started exactly once,
          all other fitting flows of the loop are stopped, winners and non-fitting flows still running.
-         Chained variant: a winner is asserted only where 'fewest unmentioned parameters along the whole chain' (product)
+         Chained variant: the match on the external event decides first (documented: the matching scores of the chains are compared
+         from left to right, the winner is determined as soon as one score is higher) - a flow whose match on the event scores strictly
+         lower than a competitor's never wins, whatever follows in the chains. Among the flows with the best first score a winner is
+         asserted only where 'fewest unmentioned parameters along the whole chain' (product)
          and the element-wise comparison of the chains (missing elements = exact match) name the same top set for every
-         value the score of a Finished-match can have; otherwise only 'exactly one action set proceeds' is checked and the
-         case is counted as skipped.
+         value the score of a Finished-match can have; otherwise any of them may win (if that is everybody only 'exactly one action
+         set proceeds' is checked and the case is counted as skipped).
 Multi-argument actions: an action may carry 1-2 further keyword arguments (intensity / volume in {1, 2, 0.5}); its identity is its type and
          the VALUES of its arguments - the order in which the keyword arguments are written and the spelling of a number (1 / 1.0) vary
          per flow, so 'identical actions' are also generated written differently (every form: direct, wrapped, fork, round 2, chained);
@@ -46,8 +49,14 @@ RULE = (
     "drawn. About a quarter of the generated cases are CHAINED: every flow has its own depth - direct, or its match on Ev sits in a helper flow (own helper h<i>, or "
     "one of 0-2 helpers hs<k> started by main and shared by several competitors) and the flow reaches its action through 1-2 links, each either "
     "`start X` + `match X.Finished()` by flow name or `await X`, each level (helper, middle flow, competitor) with its own priority from {none,1.0,0.5,0.1}; "
-    "forced shapes (2 of 7 each): the chain of flow 1 is a proper prefix of the chain of flow 0 (same loop/specificity/priority, fewer links), or flows differ "
-    "from flow 0 only in the priority of one link, i.e. in a flow that matches an internal Finished event; (1 of 7) identical chains. An enumerated family (900 cases) "
+    "forced shapes (2 of 9 each): the chain of flow 1 is a proper prefix of the chain of flow 0 (same loop/specificity/priority, fewer links), or flows differ "
+    "from flow 0 only in the priority of one link, i.e. in a flow that matches an internal Finished event, or FIRST-MATCH: flow 0 (own or shared helper) matches the "
+    "event MORE specifically than flow 1 and some others (same loop and priority, 1-2 mentioned parameters fewer) but its chain continues with at least one loose "
+    "internal match (Finished-match by flow name and/or link priority 0.5 / 0.1) while the less specific competitors are direct, sit behind one tight `await` link "
+    "or behind fewer links - left-to-right comparison and product of the scores then name different winners; (1 of 9) identical chains. An enumerated family (576 cases) "
+    "sets every long form (6 link patterns x own/shared helper x no link priority / 0.5 on the last link) whose first match mentions (a,b,c) / (a,b) / (a) with "
+    "priority 0.5 against a competitor that mentions one (for (a,b,c) also two) parameters fewer, direct or behind one await link, in both start orders, for both "
+    "tie-break outcomes. A second enumerated family (900 cases) "
     "pairs every long form (6 link patterns x own/shared helper x 3 settings of the external match) with each of its proper prefixes and with a copy whose priority "
     "differs in one link, in both start orders, for both tie-break outcomes, with/without a third less specific direct competitor. "
     "A sixth of the generated cases are INSTANCES cases: main activates a flow `reactor` ([@loop(NEW x3 | L1)] or the loop of main, [priority 0.5|0.1]) with 2-3 "
@@ -60,7 +69,7 @@ RULE = (
     "(half of them through a head fork) / wrapped x both tie-breaks) and 216 instances cases (two stages, label behind the first match before/after the action, "
     "3x3 specificities of the two matches, different/identical actions, loop NEW / L1 / main, three events, both tie-breaks). "
     "Non-trivial = some loop has >=3 fitting flows with >=2 distinct scores, or an exact tie between different "
-    "actions, or >=2 loops with fitting flows; chained: a loop with >=2 different actions where the winner is determined and somebody loses or an exact tie "
+    "actions, or >=2 loops with fitting flows; chained: a loop with >=2 different actions where the winner is determined (or narrowed to the flows with the best match on the event) and somebody loses or an exact tie "
     "between different actions exists; instances cases: at some event two instances of the reactor fit (older and newer), or an instance and another "
     "candidate meet in one loop; distinct by case."
 )
@@ -83,9 +92,16 @@ ASSUMPTIONS = [
     "Finished event) x (priority of the flow that performs this match); the score of a Finished-match is NOT taken from the implementation: a match by flow "
     "name is an unknown N in (0,1) (the FlowFinished event has parameters besides flow_id that stay unmentioned), the match behind `await` an unknown A in (0,1], "
     "the same N / A for all helper flows (they are parameterless)",
-    "chained cases: a winner is asserted only if 'most specific along the whole chain' (product of all elements) and the element-by-element comparison from the "
-    "external event on (missing elements count as exact match 1.0; this is what the interpreter implements) yield the same top set for every admissible N, A; "
-    "otherwise the case is counted as skipped after checking only that exactly one action set proceeds, losers are stopped and non-fitting flows untouched",
+    "chained cases: docs/colang_2/language_reference/more-on-flows.rst ('Flow Conflict Resolution Prioritization') says that the matching scores of the "
+    "chains are compared from left to right and the winner is determined as soon as one score is higher than the other; the first score of every chain is the "
+    "match on the external event (0.9^unmentioned x priority, no unknown factor), so a flow whose first score is strictly lower than a competitor's first score "
+    "(by more than 1e-9) cannot win, whatever follows in either chain - asserted also where the product of all scores would name the other flow "
+    "(labels chain-first-match-decides, chain-first-match-decides-against-product-of-scores); only this first position is asserted from the sentence: at later "
+    "positions chains of different length would need the undocumented padding",
+    "chained cases: among the flows with the best first score a winner is asserted only if 'most specific along the whole chain' (product of all elements) and the "
+    "element-by-element comparison from the external event on (missing elements count as exact match 1.0; this is what the interpreter implements) yield the same "
+    "top set for every admissible N, A; otherwise any of them may win (label chain-winner-among-best-first-match-ambiguous) and, if these are all fitting flows of "
+    "the loop, the case is counted as skipped after checking only that exactly one action set proceeds, losers are stopped and non-fitting flows untouched",
 ]
 WALL = {"quick": 150, "thorough": 1500}
 PARAMS = {"a": 1, "b": 2, "c": 3}
@@ -234,6 +250,37 @@ def _links(draw, shared):
     return links
 
 
+def _first_match_shape(draw, flows, forms, helpers):
+    """Forced shape: flow 0 matches the external event MORE specifically than its competitors (through an own or shared helper) but its
+    chain continues with at least one loose internal match (a Finished-match by flow name and/or a link priority < 1); flow 1 and some
+    others sit in the loop of flow 0 and match the event with 1-2 parameters fewer (same priority) - directly, behind one tight `await`
+    link, or behind fewer links than flow 0. Compared from left to right flow 0 wins; by the product of all scores it need not."""
+    if forms[0]["kind"] == "direct":
+        forms[0] = {"kind": "own", "links": draw(_links(False))}
+    b0 = helpers[forms[0]["helper"]] if forms[0]["kind"] == "shared" else flows[0]
+    if b0["wrong"] or not b0["mentioned"]:
+        b0["wrong"] = None
+        b0["mentioned"] = draw(st.lists(st.sampled_from(["a", "b", "c"]), unique=True, min_size=1, max_size=3).map(sorted))
+    links0 = forms[0]["links"]
+    if not any(link["how"] == "name" or link["priority"] in (0.5, 0.1) for link in links0):
+        if draw(st.booleans()):
+            links0[-1]["how"] = "name"
+        else:
+            links0[draw(st.integers(0, len(links0) - 1))]["priority"] = draw(st.sampled_from([0.5, 0.1]))
+    for j in range(1, len(flows)):
+        if j == 1 or draw(st.booleans()):
+            ndrop = min(draw(st.sampled_from([1, 1, 1, 2])), len(b0["mentioned"]))
+            dropped = draw(st.permutations(b0["mentioned"]))[:ndrop]
+            flows[j] = dict(flows[j], mentioned=[k for k in b0["mentioned"] if k not in dropped], wrong=None, priority=b0["priority"], loop=flows[0]["loop"])
+            how = draw(st.sampled_from(["direct", "direct", "await", "shorter"]))
+            if how == "shorter" and len(links0) >= 2:
+                forms[j] = {"kind": "own", "links": _cp(links0[:1])}
+            elif how == "await":
+                forms[j] = {"kind": "own", "links": [{"how": "await", "priority": None}]}
+            else:
+                forms[j] = {"kind": "direct"}
+
+
 @st.composite
 def _chain_case(draw, flows):
     """Every flow has its own depth: `direct` (matches Ev itself), `own` (a helper flow h<i> matches Ev; the flow reaches its
@@ -252,8 +299,10 @@ def _chain_case(draw, flows):
             forms.append({"kind": "own", "links": draw(_links(False))})
         else:
             forms.append({"kind": "shared", "helper": draw(st.integers(0, len(helpers) - 1)), "links": draw(_links(True))})
-    shape = draw(st.sampled_from(["free", "free", "tie", "prefix", "prefix", "link-priority", "link-priority"]))
-    if shape != "free":
+    shape = draw(st.sampled_from(["free", "free", "tie", "prefix", "prefix", "link-priority", "link-priority", "first-match", "first-match"]))
+    if shape == "first-match":
+        _first_match_shape(draw, flows, forms, helpers)
+    elif shape != "free":
         if shape != "tie" and forms[0]["kind"] == "direct":
             forms[0] = {"kind": "own", "links": draw(_links(False))}
         f0 = flows[0]
@@ -368,8 +417,45 @@ def enumerate_cases(tier):
                                     "helpers": [{"mentioned": mentioned, "wrong": None, "priority": p}] if kind == "shared" else [],
                                     "choices": [choice],
                                 }
+    yield from _enumerate_first_match()
     yield from _enumerate_spellings()
     yield from _enumerate_instances()
+
+
+def _enumerate_first_match():
+    """A more specific first match followed by loose internal matches against a less specific but shorter / tighter chain: every long
+    form (6 link patterns, own / shared helper; no link priority or 0.5 on the last link) whose match on the event mentions (a,b,c) /
+    (a,b) / (a) with priority 0.5, against a competitor that mentions one parameter fewer (for (a,b,c) also two fewer) - direct, or behind
+    one `await` link; both start orders, both tie-break outcomes."""
+    hows = [["name"], ["await"], ["name", "name"], ["name", "await"], ["await", "name"], ["await", "await"]]
+    bases = [(["a", "b", "c"], None, [["a", "b"], ["a"]]), (["a", "b"], None, [["a"]]), (["a"], 0.5, [[]])]
+    for mentioned, p, lesser in bases:
+        for kind in ("own", "shared"):
+            for how in hows:
+                if kind == "shared" and how[0] != "name":
+                    continue
+                for last in (None, 0.5):
+                    long_form = {"kind": kind, "links": [{"how": h, "priority": None} for h in how]}
+                    long_form["links"][-1]["priority"] = last
+                    if kind == "shared":
+                        long_form["helper"] = 0
+                    for less in lesser:
+                        for other in ({"kind": "direct"}, {"kind": "own", "links": [{"how": "await", "priority": None}]}):
+                            for order in (0, 1):
+                                fl = [
+                                    {"mentioned": mentioned, "wrong": None, "priority": p, "action": 0, "loop": None},
+                                    {"mentioned": less, "wrong": None, "priority": p, "action": 1, "loop": None},
+                                ]
+                                fo = [long_form, other]
+                                for choice in (0, 1):
+                                    yield {
+                                        "flows": _cp(fl[:: 1 - 2 * order]),
+                                        "wrapped": False,
+                                        "stage2": None,
+                                        "forms": _cp(fo[:: 1 - 2 * order]),
+                                        "helpers": [{"mentioned": mentioned, "wrong": None, "priority": p}] if kind == "shared" else [],
+                                        "choices": [choice],
+                                    }
 
 
 def _enumerate_spellings():
@@ -878,14 +964,31 @@ def _prop(case):
             continue
         fitting_groups += 1
         if chained:
-            top_product = _top(_cmp_product, chains, fit)
-            top_elementwise = _top(_cmp_elementwise, chains, fit)
+            # documented (more-on-flows.rst, 'Flow Conflict Resolution Prioritization'): the matching scores of the chains are compared
+            # from left to right and the winner is determined as soon as one score is higher than the other. The FIRST score of every
+            # chain is the match on the external event (0.9^unmentioned x priority, no unknown factor): a flow whose first score is
+            # strictly lower than the first score of a competitor cannot win, whatever follows in either chain.
+            top_first = max(chains[i][0][0] for i in fit)
+            lead = [i for i in fit if chains[i][0][0] >= top_first - 1e-9]
+            top_product = _top(_cmp_product, chains, lead)
+            top_elementwise = _top(_cmp_elementwise, chains, lead)
             if top_product is not None and top_product == top_elementwise:
                 tied = top_product
             else:
-                # the statement does not say who is most specific here: only 'exactly one action set proceeds' is checked
-                tied = list(fit)
-                ambiguous = True
+                # among the flows with the best first score the statement / documentation do not say who is most specific: any
+                # of them may win; if that is everybody only 'exactly one action set proceeds' is checked
+                tied = list(lead)
+                if len(lead) == len(fit):
+                    ambiguous = True
+                else:
+                    chain_labels.add("chain-winner-among-best-first-match-ambiguous")
+            if len(lead) < len(fit) and {aid[i] for i in fit if i not in lead} - {aid[i] for i in lead}:
+                chain_labels.add("chain-first-match-decides")
+                whole = _top(_cmp_product, chains, fit)
+                if whole is None or whole != _top(_cmp_elementwise, chains, fit):
+                    # by the product of all scores of the chain a flow with a less specific first match would win (or might, depending
+                    # on the score of a Finished-match): left-to-right and product disagree, the documented order decides
+                    chain_labels.add("chain-first-match-decides-against-product-of-scores")
             if len({len(chains[i]) for i in fit}) >= 2:
                 chain_labels.add("chain-mixed-depth")
             if any(len(chains[i]) < len(chains[j]) and _cmp_elementwise(chains[i], chains[j][: len(chains[i])]) == "=" and aid[i] != aid[j] for i in fit for j in fit):
